@@ -227,7 +227,7 @@ def r5_unnamed_params(s, file, log):
 
 
 def r6_adaptors(s, file, log):
-    for name in ('chain', 'cloned', 'enumerate', 'sum', 'map', 'filter'):
+    for name in ('chain', 'cloned', 'enumerate', 'sum', 'map', 'filter', 'all', 'any'):
         s = _sub(s, r'\.' + name + r'\s*(\(|::<)', '.vx_' + name + r'\1', 'R6:' + name, file, log)
     return s
 
@@ -337,6 +337,70 @@ def r_misc(s, file, log):
     return s
 
 
+def r13_continue(s, file, log):
+    """for .. { A; if C { S; continue; } REST }   ->   for .. { A; if C { S } else { REST } }
+    (Verus: "for-loops do not yet support continue").  Only the shape where `continue;` is the last statement of an
+    else-less `if` block that sits directly in the loop body."""
+    for _round in range(20):
+        m = rp.mask(s)
+        done = True
+        for lp in rp.find_loops(m, 0, len(m)):
+            if lp.kind != 'for':
+                continue
+            body_lo, body_hi = lp.open, lp.close
+            # `if` statements sitting directly in the loop body
+            depth = 0
+            pd = 0
+            k = body_lo + 1
+            while k < body_hi:
+                ch = m[k]
+                if ch == '{':
+                    depth += 1
+                elif ch == '}':
+                    depth -= 1
+                elif ch in '([':
+                    pd += 1
+                elif ch in ')]':
+                    pd -= 1
+                elif depth == 0 and pd == 0 and re.match(r'if\b', m[k:k + 3]) and not (m[k - 1].isalnum() or m[k - 1] == '_'):
+                    # not an `else if`
+                    if re.search(r'\belse\s*$', m[body_lo:k]):
+                        k += 2
+                        continue
+                    # block start: first `{` at paren depth 0 after the condition
+                    j = k + 2
+                    q = 0
+                    while j < body_hi:
+                        if m[j] in '([':
+                            q += 1
+                        elif m[j] in ')]':
+                            q -= 1
+                        elif m[j] == '{' and q == 0:
+                            break
+                        j += 1
+                    if j >= body_hi:
+                        break
+                    blk_open = j
+                    blk_close = rp.match_close(m, blk_open)
+                    cm = re.search(r'\bcontinue\s*;\s*$', m[blk_open + 1:blk_close])
+                    has_else = re.match(r'\s*else\b', m[blk_close + 1:]) is not None
+                    if cm and not has_else:
+                        cpos = blk_open + 1 + cm.start()
+                        cend = blk_open + 1 + cm.end()
+                        log.add('R13:continue', file, rp.line_of(s, cpos), m[k:blk_open].strip()[:50])
+                        s = (s[:cpos] + re.sub(r'[^\n]', ' ', s[cpos:cend]) + s[cend:blk_close + 1] + ' else {' + s[blk_close + 1:body_hi] + '} ' + s[body_hi:])
+                        done = False
+                        break
+                    k = blk_close
+                    depth = 0
+                k += 1
+            if not done:
+                break
+        if done:
+            break
+    return s
+
+
 SYN_NL = '\x01'   # synthetic newline added by a rewrite rule (does not advance the source line counter)
 
 
@@ -435,6 +499,7 @@ def extract_file(repo_src, file, log):
     s = r7_callbacks(s, file, log)
     s = r10_assert_eq(s, file, log)
     s = r11_drop(s, file, log)
+    s = r13_continue(s, file, log)
     s = r12_msm_args(s, file, log)
     return finish_linemap(s)
 
